@@ -243,11 +243,9 @@ def run(ctx):
     c4 = 0.0001
 
     # ================================================================ bisect / brentq
-    underflow_on = os.environ.get("VERIF_C17_UNDERFLOW") == "1" or any(
-        k.get("kind") == "rootfind_sign_product_underflow" for k in ctx.kf)
-    streams = [("main", 900 if thorough else 260)]
-    if underflow_on:
-        streams.append(("underflow", 40))
+    # "underflow" stream: function values so small that products of two of them underflow to (-)0.0 (the sign tests
+    # of the pinned code were products: finding repaired by /repo commit 8b50f2a; reported again if it returns)
+    streams = [("main", 900 if thorough else 260), ("underflow", 120 if thorough else 40)]
     for solver_name in ("bisect", "brentq"):
         solver = getattr(RF, solver_name)
         cases, meta = [], []
